@@ -37,7 +37,7 @@ pub fn params_for(prop: &str, base: u64, idx: u64) -> Params {
         _ => None,
     };
     let variant = match prop {
-        "C10" => r.below(6) as u32,
+        "C10" => r.below(8) as u32,
         "C03" => r.below(8) as u32,
         _ => r.below(4) as u32,
     };
